@@ -1,6 +1,8 @@
 """C17  A GMM's likelihood reflects its current visible parameters, whatever its history."""
 import copy
+import atexit
 import os
+import shutil
 import pickle
 import tempfile
 
@@ -40,6 +42,7 @@ def run(chk):
     terms = []
     eps = float(np.finfo(float).eps)
     tmpd = tempfile.mkdtemp(prefix="c17_")
+    atexit.register(shutil.rmtree, tmpd, ignore_errors=True)
     for i in range(n_hist):
         C, D = r.choice([1, 2, 3]), r.choice([1, 2, 3])
         w, mu, var, s = gen.gen_gmm(r, C, D, r.choice(["unit", "mixed"]))
@@ -54,7 +57,7 @@ def run(chk):
         nops = r.randint(3, max_ops)
         bad_here = False
         for k in range(nops):
-            kind = r.choice(["SetW", "SetMu", "SetVar", "SetThrUp", "SetThrDown", "EmStep", "EmStep", "Copy", "Pickle", "SaveLoad"])
+            kind = r.choice(["SetW", "SetMu", "SetVar", "SetThrUp", "SetThrDown", "EmStep", "EmStep", "Copy", "Pickle", "SaveLoad", "LoadOther"])
             if kind == "SetW":
                 nw = gen.simplex(r, C)
                 m.weights = nw
@@ -82,6 +85,17 @@ def run(chk):
             elif kind == "Pickle":
                 m = pickle.loads(pickle.dumps(m))
                 ops_t.append("OF.Pickle")
+            elif kind == "LoadOther":
+                # load() a file that holds ANOTHER model of the same shape into this (already used) object
+                w2, mu2, var2, s2 = gen.gen_gmm(r, C, D, "unit")
+                t2 = gen_thr(r, C, D, s2)
+                other = make_gmm(w2, mu2, var2, thr=t2, max_fitting_steps=1, convergence_threshold=None)
+                path = os.path.join(tmpd, "o%d_%d.h5" % (i, k))
+                other.save(path)
+                m.load(path)
+                m.max_fitting_steps, m.convergence_threshold = 1, None
+                os.remove(path)
+                ops_t.append("OF.LoadOther %s %s %s %s" % (cq.vec(w2), cq.mat(mu2), cq.mat(var2), thr_term(t2)))
             else:
                 path = os.path.join(tmpd, "m%d_%d.h5" % (i, k))
                 m.save(path)
@@ -135,10 +149,58 @@ def run(chk):
         if not np.allclose(np.asarray(mm.log_likelihood(X)), np.asarray(fresh.log_likelihood(X)), rtol=1e-12, atol=1e-12):
             chk.fail("after MAP training (update_weights=True) the machine scores differently from a fresh machine with the same visible parameters",
                      {"w": hexlist(w), "mu": hexlist(mu), "var": hexlist(var), "X": hexlist(X), "shape": [C, D]})
-    try:
-        os.rmdir(tmpd)
-    except OSError:
-        pass
+    # further public histories, each ending in the comparison with a freshly built machine of the same visible parameters:
+    #  (a) observe, then load() ANOTHER model of the same shape into the machine, observe again
+    #  (b) augmented assignment through a property (m.variances *= k, m.means += d, m.weights[...] edit + assign back): the getter hands out the
+    #      machine's own array, the setter receives that very array after it was edited in place
+    def fresh_of(mach, thr):
+        f = GMMMachine(n_gaussians=len(np.asarray(mach.weights)), weights=np.array(mach.weights))
+        f.means = np.array(mach.means)
+        f.variance_thresholds = np.array(thr)
+        f.variances = np.array(mach.variances)
+        return f
+    for j in range(12 if chk.tier == "quick" else 80):
+        C, D = r.choice([1, 2, 3]), r.choice([1, 2, 3])
+        w, mu, var, s = gen.gen_gmm(r, C, D, "unit")
+        m = make_gmm(w, mu, var, thr=1e-3 * float(s.min()) ** 2)
+        X = gen.sample_from(r, w, mu, var, 6)
+        g = gen.nprng(r)
+        ctxh = {"w": hexlist(w), "mu": hexlist(mu), "var": hexlist(var), "shape": [C, D], "X": hexlist(X)}
+        _ = m.log_likelihood(X), m.acc_stats(X)               # whatever is cached is cached now
+        kind = ["load-other", "variances*=", "variances-row-edit", "means+=", "floors-raised-then-var*="][j % 5]
+        if kind == "load-other":
+            w2, mu2, var2, s2 = gen.gen_gmm(r, C, D, "unit")
+            other = make_gmm(w2, mu2 + 0.5 * s2, var2 * g.uniform(0.3, 3.0, size=(C, D)), thr=1e-3 * float(s2.min()) ** 2)
+            path = os.path.join(tmpd, "other%d.h5" % j)
+            other.save(path)
+            m.load(path)
+            want = other
+        elif kind == "variances*=":
+            m.variances *= 4.0
+            want = None
+        elif kind == "variances-row-edit":
+            v = m.variances
+            v[0] = np.asarray(v[0]) * 1e-9                       # far below the floor: must be clamped when assigned back
+            m.variances = v
+            want = None
+        elif kind == "means+=":
+            m.means += 0.7 * s
+            want = None
+        else:
+            m.variance_thresholds = float(np.median(np.asarray(m.variances)))
+            m.variances *= 0.5
+            want = None
+        chk.count(1, key=("history", kind))
+        thr_now = np.asarray(m.variance_thresholds)
+        f = fresh_of(m, thr_now) if want is None else fresh_of(want, np.asarray(want.variance_thresholds))
+        okp = (np.allclose(np.asarray(m.log_likelihood(X)), np.asarray(f.log_likelihood(X)), rtol=1e-12, atol=1e-12)
+               and np.allclose(np.asarray(m.acc_stats(X).sum_pxx), np.asarray(f.acc_stats(X).sum_pxx), rtol=1e-10, atol=1e-12))
+        if not okp:
+            chk.fail("after the history [observe; %s; observe] the machine scores differently from a fresh machine with the same visible parameters" % kind,
+                     dict(ctxh, history=kind, visible_variances=hexlist(m.variances)))
+        if not np.all(np.asarray(m.variances) >= np.broadcast_to(thr_now, np.asarray(m.variances).shape)):
+            chk.fail("after the history [observe; %s] some variance is below the machine's current floor" % kind, dict(ctxh, history=kind, visible_variances=hexlist(m.variances)))
+    shutil.rmtree(tmpd, ignore_errors=True)
     bad, info = cq.run_cases("C17", IMPORTS, "hist_case", "hist_check", terms, shard=40)
     chk.correspondence("GMMMachine under histories of setters / EM steps / deepcopy / pickle / HDF5 round trips ~ OF.run (state compared after every operation)",
                        len(terms), bad, info)
